@@ -17,6 +17,7 @@ mod c15;
 mod c16;
 mod c17;
 mod c18;
+mod c19;
 mod sinkwalk;
 mod walkprops;
 mod smoke;
@@ -41,6 +42,7 @@ pub fn run(opts: &Opts) -> i32 {
         "C16" => c16::run(opts),
         "C17" => c17::run(opts),
         "C18" => c18::run(opts),
+        "C19" => c19::run(opts),
         "smoke" => smoke::run(opts),
         other => {
             println!("INCONCLUSIVE: no check registered for {other}");
